@@ -1016,6 +1016,17 @@ func genExtraOp(r *rng, p *Plan, usable func(ver int, mut bool) []int) (Op, bool
 					args = append(args, genMetric(r, fn.Ver, 0))
 				}
 			}
+		case "any":
+			switch r.intn(5) {
+			case 0:
+				args = append(args, genVector(r, fn.Ver))
+			case 1, 2:
+				args = append(args, "b:"+genVector(r, fn.Ver))
+			case 3:
+				args = append(args, "i:"+fmt.Sprint(r.intn(100)))
+			default:
+				args = append(args, "nil")
+			}
 		case "int":
 			args = append(args, fmt.Sprint([]int{0, 1, 2, 3, 7, 10, 100, -1}[r.intn(8)]))
 		case "float":
